@@ -82,10 +82,12 @@ func (c *Cache) Dump(path string) error {
 		return err
 	}
 
+	verifPoint("dump:before", path, contents)
 	err = os.WriteFile(path, contents, filePerms)
 	if err != nil {
 		return fmt.Errorf("Could not write spok cache at %q: %s", path, err)
 	}
+	verifPoint("dump:after", path, contents)
 	return nil
 }
 
